@@ -69,3 +69,56 @@ class Scripted(np.random.Generator):
         self.branching.append(live)
         self.log.append(("choice", opts, probs, opts[k]))
         return opts[k] if not isinstance(a, (int, np.integer)) else np.int64(opts[k])
+
+
+class QuantileRNG(np.random.Generator):
+    """answers every elementary variate SciPy asks for from ONE scripted quantile q in (0, 1): `uniform` returns
+    low + (high-low) q, `random` returns q, `standard_normal` returns the normal quantile of q, `poisson(lam)` the Poisson
+    quantile of q.  `choice` always takes the first option of positive probability (used with linear chains only)."""
+
+    def __new__(cls, q=0.5):
+        return super().__new__(cls, np.random.PCG64(0))
+
+    def __init__(self, q=0.5):
+        super().__init__(np.random.PCG64(0))
+        self.q = float(q)
+        self.calls = []
+        self.log = []
+
+    def _shape(self, v, size):
+        if size is None or size == ():
+            return v if size is None else np.asarray(v)
+        return np.full(size, v)
+
+    def uniform(self, low=0.0, high=1.0, size=None):
+        self.calls.append("uniform")
+        return self._shape(low + (high - low) * self.q, size)
+
+    def random(self, size=None, dtype=np.float64, out=None):
+        self.calls.append("random")
+        return self._shape(self.q, size)
+
+    def standard_normal(self, size=None, dtype=np.float64, out=None):
+        from scipy.special import ndtri
+        self.calls.append("standard_normal")
+        return self._shape(float(ndtri(self.q)), size)
+
+    def normal(self, loc=0.0, scale=1.0, size=None):
+        from scipy.special import ndtri
+        self.calls.append("normal")
+        return self._shape(loc + scale * float(ndtri(self.q)), size)
+
+    def poisson(self, lam=1.0, size=None):
+        from scipy.special import pdtr
+        self.calls.append("poisson")
+        k = max(0, int(lam - 10 * np.sqrt(lam) - 10))
+        while pdtr(k, lam) < self.q:
+            k += 1
+        return self._shape(k, size)
+
+    def choice(self, a, size=None, replace=True, p=None, axis=0, shuffle=True):
+        opts = list(range(int(a))) if isinstance(a, (int, np.integer)) else [int(x) for x in list(a)]
+        probs = [1.0 / len(opts)] * len(opts) if p is None else [float(x) for x in np.asarray(p, dtype=float).tolist()]
+        k = next(i for i, x in enumerate(probs) if x > 0)
+        self.log.append(("choice", opts, probs, opts[k]))
+        return opts[k]
